@@ -298,7 +298,15 @@ class Validator:
             return True
         if isinstance(e, ast.Name):
             d = self.rd.unique(node, e.id)
-            return d is not None and d.kind == "assign" and d.value is not None and is_sep(d.value)
+            if d is not None:
+                return d.kind == "assign" and d.value is not None and is_sep(d.value)
+            mv = self.fi.module.assigns.get(e.id)  # module-level constant
+            return mv is not None and not self.rd.defs_at(node, e.id) and is_sep(mv)
+        d_ = q.dotted(e)
+        if d_ and d_.split(".")[0] in ("self", "cls") and len(d_.split(".")) == 2 and self.fi.cls is not None:
+            for st in self.fi.cls.body:  # class-level constant
+                if isinstance(st, ast.Assign) and any(isinstance(t, ast.Name) and t.id == d_.split(".")[1] for t in st.targets):
+                    return is_sep(st.value)
         return False
 
     def pardir_prefix(self, e, node):
